@@ -66,6 +66,7 @@ def add_allocs(d, rng, heavy=True):
     d["cafree"] = rng.choice([0, 1, 1])
     d["cathr"] = rng.choice([0, 1])
     d["cavar"] = rng.choice([0, 0, 3, 4, 7])
+    d["caonly"] = rng.choice([0, 0, 0, 1, 2, 5])      # allocate only during a thread's first calls (lazy initialisation)
     d["gan"] = rng.choice([0, 1, 3])
     d["gasz"] = rng.choice([8, 24, 1000])
     d["dan"] = rng.choice([0, 1, 2])
@@ -316,6 +317,12 @@ def gen_c04(tier, seed):
         else:
             d["max"] = rng.choice([10 ** 30, 18446744073709551615 * 10 ** 9])
             d["min"] = ns_for_rounds(rounds_target)
+        if rng.random() < 0.12 and cbase >= 5:
+            # the same rule while the sample size is tuned automatically (the budget counts from before tuning)
+            d.pop("s")
+            d["q"] = 1
+            d["delta"] = 1
+            d["n"] = min(n, 5)
         out.append(line(d))
     return out
 
@@ -382,6 +389,11 @@ def gen_c05(tier, seed):
             d["q"] = rng.choice([1, 2, 6])
             d["delta"] = 1
             d["freq"] = rng.choice([10 ** 12, 10 ** 9])
+            if rng.random() < 0.6:
+                add_allocs(d, rng)
+                d["caonly"] = rng.choice([1, 2, 3])
+                if not d["caops"]:
+                    d["caops"] = "a64,d"
         out.append(line(d))
     return out
 
@@ -442,12 +454,19 @@ def gen_c08_panic(tier, seed):
                 for rnd in (0, 1):
                     combos.append((T, thread, phase, rnd))
     rng.shuffle(combos)
-    take = combos[:40] if tier == "quick" else combos
+    take = combos[:64] if tier == "quick" else combos * 3
     for (T, thread, phase, rnd) in take:
         entry = rng.choice([2, 4])
         s = rng.choice([1, 2])
+        # every loop path: zero-sized fast path, deferred slots (output needs drop), inputs only (output needs no drop)
+        ishape = rng.choice(["z", "zd", "s", "sd", "u"])
+        oshape = rng.choice(["z", "zd", "s", "sd"])
+        if phase == 3 and oshape in ("z", "s"):
+            oshape = rng.choice(["zd", "sd"])        # a panic while dropping an output needs an output with a destructor
+        if phase == 4 and ishape in ("z", "s", "u"):
+            ishape = rng.choice(["zd", "sd"])
         d = {"id": idx, "entry": entry, "T": T, "s": s, "n": T * 3, "cbase": 10, "seed": rng.randrange(1 << 20), "fplog": 0,
-             "ishape": rng.choice(["zd", "sd"]), "oshape": rng.choice(["zd", "sd"]), "ic": "0"}
+             "ishape": ishape, "oshape": oshape, "ic": "0"}
         index = rnd * s + rng.randrange(s)
         d["panic"] = "%d,%d,%d" % (phase, thread, index)
         out.append(line(d))
